@@ -78,6 +78,10 @@ theorem get_latest (b : Buf α) (h : b.Inv) (k : Nat) :
       | none => .absent
       | some v => .found v := Buf.get_spec h k
 
+/-- `has k` (used by `ContractState.HasKey`) holds exactly when `k` has a surviving entry. -/
+theorem has_latest (b : Buf α) (h : b.Inv) (k : Nat) :
+    b.has k = (lastWrite b.entries k).isSome := Buf.has_spec h k
+
 /-- `ContractState.GetData` reads the most recent non-reverted write to the key — a delete reads as
 absent — and only without one falls through to the trie. -/
 theorem reads_see_writes_storage (st : Storage) (h : st.buf.Inv) (k : Nat) :
